@@ -21,7 +21,8 @@ RULE = ("Hypothesis-generated projects (nested packages; experiments, commands, 
         "snapshot. Oracle: restored rows == model selection as a set of 4-tuples; every selected version's tree byte-identical; "
         "no other version directory; source rows and trees unchanged; archive succeeds iff the selection is non-empty. "
         "Non-trivial = selection is a strict non-empty subset of the rows, or >=2 versions of one task selected, or package "
-        "depth >=2. Distinct = SHA-1 of case JSON.")
+        "depth >=2. Distinct = SHA-1 of case JSON."
+        " Also generated: symbolic links inside outputs; a relative archive name containing ':'; a stale temporary archive index left in cond-out by a killed `cond archive`.")
 ASSUMPTIONS = ["symbolic links inside experiment outputs are part of the tree (relative, to a directory, dangling); they must come back as the same links",
                "every recorded version has its directory in the source project (C06/C12 cover the other cases)"]
 ESSENTIAL = ["latest", "task_closure_with_nonarchivable_between", "diamond_below_task", "nested_pkg", "name_leading_dash_root_pkg",
